@@ -84,6 +84,7 @@ func resultValue(rs []Value) Value {
 
 func (x *Exec) callStatic(f *Frame, st *State, ins ssa.Instruction, fn *ssa.Function, clo *Closure, args []Value) (Value, bool) {
 	if m := x.libModel(fn); m != nil {
+		x.curCallee = fn
 		return m.apply(f, st, ins, args)
 	}
 	sp := x.specFor(fn)
@@ -297,9 +298,14 @@ func (x *Exec) callByContract(f *Frame, st *State, ins ssa.Instruction, fn *ssa.
 	x.applyModifies(cf, st, sp, pre)
 	res := fn.Signature.Results()
 	var rs []Value
-	for i := 0; i < res.Len(); i++ {
-		name := fmt.Sprintf("ret%d_%s", i, fn.Name())
-		rs = append(rs, x.freshValue(name, res.At(i).Type()))
+	if sp.Flags["pure"] {
+		// a pure function: its results are a deterministic function of its arguments and the heap
+		rs = x.pureResults(st, fn, args)
+	} else {
+		for i := 0; i < res.Len(); i++ {
+			name := fmt.Sprintf("ret%d_%s", i, fn.Name())
+			rs = append(rs, x.freshValue(name, res.At(i).Type()))
+		}
 	}
 	cf.bindResults(sp, rs)
 	x.NoObl++
